@@ -108,7 +108,8 @@ def remove_rule(ctx: Ctx, kind: str):
                     ok = True
         # the entity must be known to be present on the path
         present = any((flow.dump(a) in ent_forms and pol is True) or (flow.dump(a) == f"{xid} not in {sim}.{ents}" and pol is False)
-                      or (flow.dump(a) == f"{xid} in {sim}.{ents}" and pol is True) for a, pol in p.facts())
+                      or (flow.dump(a) == f"{xid} in {sim}.{ents}" and pol is True)
+                      or (flow.is_syn(a, "$isnone") and flow.dump(a.args[0]) in ent_forms and pol is False) for a, pol in p.facts())
         ctx.check(ok and present, "D2", "IX.remove", f"remove_{kind}_safe deletes the same id from the entity map, its geoid cell and its search cell, in one _replace", fn, p.end,
                   why_bad=(f"fields written: { {k: v[:120] for k, v in got.items()} }" if not ok else "entity presence not established on the path"),
                   construct=f"remove_{kind}_safe:shape")
